@@ -29,6 +29,7 @@ def build(tier, seed):
         kern.files = {'src/lib.rs': h}
         kern.harnesses = [
             H('names_identical_iff_platform_decoration', timeout=900, desc='names_will_be_identical_after_mangling == decoration table; canonical <= 3, mangled <= 7 bytes, 9 ABI cases', sample={'canonical': '<=3 bytes', 'mangled': '<=7 bytes', 'abi': '9 cases'}),
+            H('link_name_decision_never_panics', timeout=900, desc='names_will_be_identical_after_mangling: no index / slice / arithmetic panic for any names (canonical <= 3, mangled <= 7 bytes) and any ABI', sample='all names over [a _ @ 7 $]'),
             H('function_binding_reaches_its_symbol', timeout=900, desc='Function::codegen link_name statement: attribute names the C symbol, or the Rust name decorates to it', sample={'canonical': '<=3', 'mangled': 'None|<=5', 'name': '<=3', 'link_name': 'None|<=3'}),
             H('variable_binding_reaches_its_symbol', timeout=900, desc='Var::codegen symbol statement', sample={'canonical': '<=3', 'mangled': 'None|<=5', 'name': '<=3'}),
         ]
@@ -43,12 +44,21 @@ def build(tier, seed):
         get_abi = extract(fun, r'^fn get_abi\(cc: CXCallingConv\) -> ClangAbi \{', what='get_abi')
         abi_fn = extract(fun, r'^    pub\(crate\) fn abi\(', what='FunctionSig::abi').replace('crate::codegen::error::', 'crate_codegen_error::')
         abi_enum = extract(fun, r'^pub enum Abi \{', what='enum Abi')
+        mod = rd('codegen/mod.rs')
+        tot = extract(fun, r'^impl quote::ToTokens for ClangAbi \{', what='impl quote::ToTokens for ClangAbi')
+        ttr = extract(mod, r'^impl TryToRustTy for FunctionSig \{', what='impl TryToRustTy for FunctionSig')
+        m = re.search(r'let abi = match signature\.abi\(ctx, Some\(name\)\) \{', mod)
+        if not m:
+            raise SliceError('Function::codegen: `let abi = match signature.abi(ctx, Some(name))` statement not found')
+        fstmt = mod[m.start():match_brace(mod, m.end() - 1)] + ';'
         h = open(os.path.join(G, 'harness', 'c04_abi.rs')).read().replace('/*ABI_ENUM*/', abi_enum).replace('/*GET_ABI*/', get_abi).replace('/*ABI_FN*/', abi_fn)
+        h = h.replace('/*CLANG_ABI_TOTOKENS*/', tot).replace('/*TRY_TO_RUST_TY*/', ttr).replace('/*FN_ABI_STMT*/', fstmt)
         kk = Kernel(name='abi')
         kk.files = {'src/lib.rs': h}
         kk.harnesses = [H('calling_conventions_map_to_the_abi_of_the_same_name', desc='get_abi over every u32 calling-convention code', sample='any CXCallingConv'),
+                        H('any_calling_convention_is_bound_or_skipped_never_a_panic', timeout=600, desc='get_abi -> FunctionSig::abi -> the abi statement of Function::codegen / TryToRustTy for FunctionSig (with the real ToTokens for ClangAbi): every u32 calling convention ends in a binding with a nameable ABI or in no binding, never in a panic', sample='any CXCallingConv, any feature flags, variadic or not'),
                         H('override_precedence_and_feature_gate', timeout=900, desc='FunctionSig::abi: <=2 --override-abi entries, lookup by parameter name or own name, any clang ABI, any feature flags, variadic or not', sample={'overrides': '<=2', 'features': '2^4'})]
-        kk.encoded = [enc('ir/function.rs', 'fn get_abi', get_abi), enc('ir/function.rs', 'FunctionSig::abi', abi_fn), enc('ir/function.rs', 'enum Abi', abi_enum)]
+        kk.encoded = [enc('ir/function.rs', 'impl quote::ToTokens for ClangAbi', tot), enc('codegen/mod.rs', 'impl TryToRustTy for FunctionSig', ttr), enc('codegen/mod.rs', 'Function::codegen: abi statement', fstmt), enc('ir/function.rs', 'fn get_abi', get_abi), enc('ir/function.rs', 'FunctionSig::abi', abi_fn), enc('ir/function.rs', 'enum Abi', abi_enum)]
         kk.stubs = ['clang_sys::CXCallingConv_*: environment table of distinct codes', 'RegexSet::matches: symbolic answer per looked-up name', 'RustFeatures: the four ABI flags', 'FunctionSig: name, abi, variadic']
         kk.bounds = ['all u32 codes; <= 2 overrides']
         return kk
